@@ -288,9 +288,16 @@ func (c *columnKey) Apply(chunk commit.Chunk, r *commit.Reader) {
 		case commit.Put:
 			value := string(r.Bytes())
 
+			// If the row is being re-keyed, release its previous key
+			c.lock.Lock()
+			if prev := data[offset]; fill.Contains(uint32(offset)) && prev != value {
+				if at, ok := c.seek[prev]; ok && at == uint32(r.Offset) {
+					delete(c.seek, prev)
+				}
+			}
+
 			fill[offset>>6] |= 1 << (offset & 0x3f)
 			data[offset] = value
-			c.lock.Lock()
 			c.seek[value] = uint32(r.Offset)
 			c.lock.Unlock()
 
